@@ -161,6 +161,19 @@ def jobs(tier, seed, excluded=()):
             sname = [p for p, t in sp if t == "str"][0]
             assume = nl_assume([sname]) if REGION_NL in excluded else ""
             mk("C02-%s-str-%s" % (tid, sl.name), tid, {"nstate": len(sp), "fixed": fixed, "dom": sdom.to_json()}, sp, spre, [[1, "a"], [1, '\\"'], [0, ""]], assume=assume)
+    # small choice trees explored completely (ints from two candidates)
+    cdom = Dom(int_max=-1, int_cands=["7", "1"], str_mode="cand", str_cands=["p"], hex_cands=["0x1f"], float_cands=["0.25"])
+    for tid in ["E_choice_late", "E_choice_nested", "E_choice_default"]:
+        slots = ST.layout(tid)
+        parts, complete = ST.partitions(slots, cdom, 1200, 1, rng)
+        # split on the first slot to spread over cores
+        first = slots[0]
+        for v in ST.slot_values(first, cdom):
+            fixed = dict(parts[0])
+            fixed[first.name] = v
+            sp, spre = ST.params_for(slots, cdom, fixed=fixed)
+            free = [sl for sl in slots if sl.name not in fixed]
+            mk("C02-%s-all-%s" % (tid, v), tid, {"nstate": len(sp), "fixed": fixed, "dom": cdom.to_json()}, sp, spre, [rand_state(rng, free, cdom) for _ in range(2)])
     # deprecated block
     for tid in ["T13", "T13b"]:
         slots = ST.layout(tid)
